@@ -251,6 +251,7 @@ class Runner:
                             o.crate = (i, prof)
                             outcomes.append(o)
         unit_by_uid = {u.uid: u for u in all_units}
+        log(f"[{pid}] solve stage done at {time.time() - self.t0:.1f}s")
         # ---- counterexamples: playback + native replay --------------------------------------------
         bad = [o for o in outcomes if o.verdict == "fail"]
         controls = [o for o in outcomes if o.h.expect == "control"]
@@ -368,6 +369,7 @@ class Runner:
                     native_viol.append((c, rr[i]))
                 elif not all("REPLAY returned" in x or "VERIF-ASSUME-VIOLATED" in x for x in outs):
                     self.inconclusive.append(f"native run {c[0]}::{c[1]} did not execute: {outs}")
+        log(f"[{pid}] replay stage done at {time.time() - self.t0:.1f}s")
         # negative controls must be refuted AND reproduce
         ctl_report = []
         for o in controls:
